@@ -27,7 +27,8 @@
   FRESH — free (all β null) and valueless (no vertex value under them) —, the vertex storage merges with the average
   (`cfg.law 0 = avgLaw`, `Vertex2`), and no failure is injected (`m.fc = 0`).
 
-  NOT here: the same tie for ear clipping (`earclipTriangles`); spare darts that already carry a value or links.
+  The same tie for ear clipping (`earclipTriangles`) is in Props/C13e.lean.  NOT covered: spare darts that already carry a
+  value or links.
 -/
 import Honeycomb.Lemmas.PosCalc
 import Honeycomb.Props.C13c
